@@ -241,17 +241,143 @@ theorem popcount_shl (x : Word) (s : Nat) (hx : x.length = 64) (hs : s < 64) :
   unfold shl
   rw [popcount_append, popcount_replicate_false, hx]; simp
 
-theorem sum_map_popcount_chunks (j : Nat) (ys : List Bool) (h : 64 * j ≤ ys.length) :
-    (((chunks (j + 1) ys).take j).map popcount).sum = popcount (ys.take (64 * j)) := by
+theorem sum_popcount_chunks (j : Nat) (ys : List Bool) :
+    ((chunks j ys).map popcount).sum = popcount (ys.take (64 * j)) := by
   induction j generalizing ys with
-  | zero => simp [popcount]
+  | zero => simp [chunks, popcount]
   | succ j ih =>
-    have hl : 64 * j ≤ (ys.drop 64).length := by simp [List.length_drop]; omega
-    have := ih (ys.drop 64) hl
-    simp only [chunks, List.take_succ_cons, List.map_cons, List.sum_cons] at this ⊢
-    rw [this]
+    simp only [chunks, List.map_cons, List.sum_cons, ih]
     have e : 64 * (j + 1) = 64 + 64 * j := by omega
     rw [e, List.take_add, popcount_append]
+
+theorem chunks_take (m j : Nat) (ys : List Bool) (h : j ≤ m) : (chunks m ys).take j = chunks j ys := by
+  induction j generalizing m ys with
+  | zero => simp [chunks]
+  | succ j ih =>
+    cases m with
+    | zero => omega
+    | succ m => simp only [chunks, List.take_succ_cons]; rw [ih _ _ (by omega)]
+
+/-- `popcountBlock(bits, off, nbits)` counts the set bits of the `nbits` bits that start at word `off` -/
+theorem popcountBlockGo_eq (bs : List Bool) (extra off nbits : Nat) (h1 : 1 ≤ nbits)
+    (h : 64 * off + nbits ≤ bs.length) :
+    popcountBlockGo (toWords bs extra) off nbits = popcount ((bs.drop (64 * off)).take nbits) := by
+  obtain ⟨hk1, hk2, hk3, hk4⟩ := numWords_bounds bs.length
+  generalize hkdef : numWords bs.length = k at *
+  generalize hn : bs.length = n at *
+  let B := bs ++ List.replicate (64 * k - n) false
+  have hBlen : B.length = 64 * k := by simp [B, hn]; omega
+  have hwords : toWords bs extra = chunks k B ++ List.replicate extra zeroWord := by
+    simp [toWords, hkdef, hn, B]
+  have hj : off + (nbits - 1) / 64 < k := by omega
+  unfold popcountBlockGo
+  have hnb : (nbits == 0) = false := by simp; omega
+  simp only [hnb]
+  -- the full words
+  have hfull : ((toWords bs extra).drop off).take ((nbits - 1) / 64) = chunks ((nbits - 1) / 64) (B.drop (64 * off)) := by
+    rw [hwords, List.drop_append_of_le_length (by rw [chunks_length]; omega), chunks_drop,
+      List.take_append_of_le_length (by rw [chunks_length]; omega), chunks_take _ _ _ (by omega)]
+  -- the last word
+  have hget : (toWords bs extra).getD (off + (nbits - 1) / 64) zeroWord
+      = (B.drop (64 * (off + (nbits - 1) / 64))).take 64 := by
+    rw [hwords, List.getD_eq_getElem?_getD, List.getElem?_append_left (by rw [chunks_length]; exact hj),
+      ← List.getD_eq_getElem?_getD]
+    exact chunks_getD k _ B hj
+  have hl : ((B.drop (64 * (off + (nbits - 1) / 64))).take 64).length = 64 := by
+    simp only [List.length_take, List.length_drop, hBlen]; omega
+  rw [hfull, hget, sum_popcount_chunks, popcount_shl _ _ hl (by omega), List.take_take]
+  have e1 : min (64 - (64 - 1 - (nbits - 1) % 64)) 64 = (nbits - 1) % 64 + 1 := by omega
+  have e2 : nbits = 64 * ((nbits - 1) / 64) + ((nbits - 1) % 64 + 1) := by omega
+  have hB : (bs.drop (64 * off)).take nbits = (B.drop (64 * off)).take nbits := by
+    simp only [B]
+    rw [List.drop_append_of_le_length (by omega), List.take_append_of_le_length (by simp [hn]; omega)]
+  rw [e1, hB]
+  conv => rhs; rw [e2, List.take_add, popcount_append, List.drop_drop]
+  have e3 : 64 * off + 64 * ((nbits - 1) / 64) = 64 * (off + (nbits - 1) / 64) := by omega
+  rw [e3]
+  simp
+
+/-- `rankVectorSparse.Rank` over the words = the table-driven rank on the bit list (= `rank`, by
+`rankGo_eq_rank`) -/
+theorem rankWords_eq_rankGo (lut : List Nat) (bs : List Bool) (extra pos : Nat) (h : pos < bs.length) :
+    rankWords lut (toWords bs extra) pos = rankGo lut bs pos := by
+  unfold rankWords rankGo
+  simp only [rankSparseBlockSize, wordSize]
+  have e : 64 * (pos / 512 * (512 / 64)) = pos / 512 * 512 := by omega
+  rw [popcountBlockGo_eq bs extra _ _ (by omega) (by omega), e]
+
+/-! ### select inside a word: byte table and byte-level skeleton of `select64Broadword` -/
+
+set_option maxRecDepth 1000000 in
+/-- every entry of `selectInByteLut` (as computed by `selectInByte`, the loop of bits.go `init`) is the
+position of the (j+1)-th set bit of the byte, or 8 — all 256 × 8 entries -/
+theorem selectInByte_table :
+    (List.range 256).all (fun b => (List.range 8).all (fun j => selectInByte b j == selectByteSpec b j)) = true := by
+  decide
+
+theorem selectInByte_eq_spec (b j : Nat) (hb : b < 256) (hj : j < 8) : selectInByte b j = selectByteSpec b j := by
+  have h := selectInByte_table
+  rw [List.all_eq_true] at h
+  have h2 := h b (List.mem_range.mpr hb)
+  rw [List.all_eq_true] at h2
+  simpa using h2 j (List.mem_range.mpr hj)
+
+theorem byteBits_length (b : Nat) : (byteBits b).length = 8 := by simp [byteBits]
+
+theorem select_append_left (a r : List Bool) (k : Nat) (h1 : 1 ≤ k) (h : k ≤ popcount a) :
+    select (a ++ r) k = select a k := by
+  induction a generalizing k with
+  | nil => simp [popcount] at h; omega
+  | cons x xs ih =>
+    cases x
+    · simp only [List.cons_append, select]
+      rw [ih k h1 (by simpa [popcount_cons] using h)]
+    · simp only [List.cons_append, select]
+      by_cases hk : k ≤ 1
+      · simp [hk]
+      · simp only [hk, if_false]
+        rw [ih (k - 1) (by omega) (by simp [popcount_cons] at h; omega)]
+
+theorem select_append_skip (a r : List Bool) (k : Nat) (h : popcount a < k) :
+    select (a ++ r) k = a.length + select r (k - popcount a) := by
+  induction a generalizing k with
+  | nil => simp [popcount]
+  | cons x xs ih =>
+    cases x
+    · simp only [List.cons_append, select, List.length_cons]
+      have h' : popcount xs < k := by simpa [popcount_cons] using h
+      rw [ih k h']; simp [popcount_cons]; omega
+    · simp only [List.cons_append, select, List.length_cons]
+      have h' : popcount xs < k - 1 := by simp [popcount_cons] at h; omega
+      have hk : ¬ k ≤ 1 := by omega
+      simp only [hk, if_false]
+      rw [ih (k - 1) h']; simp [popcount_cons, Nat.sub_sub]; omega
+
+/-- the byte-level skeleton of `select64Broadword` (byte sums → place → byte rank → table lookup) finds the
+(k+1)-th set bit of the word made of the bytes, for every list of bytes and every k below the popcount -/
+theorem select64Bytes_eq_select (bytes : List Nat) (k : Nat) (hb : ∀ b ∈ bytes, b < 256)
+    (hk : k < popcount (bytes.flatMap byteBits)) :
+    select64Bytes bytes k = select (bytes.flatMap byteBits) (k + 1) := by
+  induction bytes generalizing k with
+  | nil => simp [popcount] at hk
+  | cons b rest ih =>
+    have hb0 : b < 256 := hb b (by simp)
+    simp only [select64Bytes, List.flatMap_cons]
+    rw [List.flatMap_cons, popcount_append] at hk
+    by_cases hc : popcount (byteBits b) ≤ k
+    · rw [if_pos hc, select_append_skip _ _ _ (by omega), byteBits_length,
+        ih (k - popcount (byteBits b)) (fun x hx => hb x (by simp [hx])) (by omega)]
+      congr 2; omega
+    · rw [if_neg hc, select_append_left _ _ _ (by omega) (by omega)]
+      have hk8 : k < 8 := by
+        have := byteBits_length b
+        have hle : popcount (byteBits b) ≤ (byteBits b).length := by unfold popcount; exact List.count_le_length
+        omega
+      have hrow : (selectInByteLut.getD b []).getD k 8 = selectInByte b k := by
+        simp [selectInByteLut, List.getD_eq_getElem?_getD, List.getElem?_map, List.getElem?_range, hb0, hk8]
+      rw [hrow, selectInByte_eq_spec b k hb0 hk8]
+      unfold selectByteSpec
+      rw [if_pos (by omega)]
 
 theorem distNextGo_eq (bs : List Bool) (extra pos : Nat) (h : pos + 1 < bs.length) :
     distNextGo bs.length (toWords bs extra) pos = 1 + leadingZeros (bs.drop (pos + 1)) := by
